@@ -289,7 +289,7 @@ func runEquiv(c *Check, p *Prog, spec eqSpec, points int) *eqResult {
 
 func pointsFor(c *Check) int {
 	if c.Tier == "thorough" {
-		return 96
+		return 384
 	}
 	return 24
 }
